@@ -425,3 +425,7 @@ func checkPW(c PWCase) (r pbt.Result) {
 }
 
 func TestPiecewise(t *testing.T) { pbt.Run(t, genPW, checkPW) }
+
+func FuzzFindRoot(f *testing.F) { pbt.Fuzz(f, genRoot, checkRoot) }
+
+func FuzzPiecewise(f *testing.F) { pbt.Fuzz(f, genPW, checkPW) }
